@@ -358,6 +358,20 @@ def run_case(case, ctx):
             rng.shuffle(sel)
             flt = set(sel)
             fargs = ['-f', ','.join(M.number_spelling(rng, v) for v in sel)]
+            if len(flt) >= 2 and rng.random() < 0.35:
+                # the list built up by several -f options, and headers retracted again with the negated option +f
+                # (utility-programs.md: options of the tools can be negated as with AS; assembler-usage.md: the negation of a
+                # list-valued option with a name erases this name from the list).  Never retracts the whole list.
+                cut = rng.randrange(1, len(sel))
+                fargs = ['-f', ','.join(M.number_spelling(rng, v) for v in sel[:cut]), '-f', ','.join(M.number_spelling(rng, v) for v in sel[cut:])]
+                if rng.random() < 0.7:
+                    uniq = sorted(flt)
+                    gone = rng.sample(uniq, rng.randrange(1, len(uniq)))
+                    fargs += ['+f', ','.join(M.number_spelling(rng, v) for v in gone)]
+                    flt -= set(gone)
+                    fclass += '+retracted'
+                else:
+                    fclass += '+split'
     quiet = rng.random() < 0.5
     target = rng.choice(['out.p', 'out.p', 'out', 'bound.p'])
     tfile = target if '.' in target else target + '.p'
